@@ -24,7 +24,10 @@ samples sample_path *drops*, which by definition are not in its output):
   SparseHeightMap with the same tolerance whose heights form a very steep plane
   that is not level along any lattice direction: all its samples differ from
   every other one by far more than the tolerance, so the property forbids
-  dropping any of them and its output lists every sample position.
+  dropping any of them and its output lists every sample position. Four such
+  planes are asked (rising / falling, above / below zero) and the union of their
+  positions is used, so that a filter that is wrong on one kind of ground cannot
+  thin out the reference positions too.
   Heights of the real map at those positions are taken from get_depth_at.
   Assumption (stated in the evidence): sample positions depend on the line and
   the tolerance, not on the stored heights. The assumption is policed: a kept
@@ -642,18 +645,29 @@ def aux_positions(line, tol):
     """Unfiltered sample positions for (line, tol), see the module docstring. Returns (positions, error)."""
     key = (tuple(line), tol)
     if key not in _AUX:
-        data = numpy.array([(x, y, AUX_GAIN * (x + math.pi * y)) for x, y in AUX_POINTS])
-        aux = SparseHeightMap(data)
-        aux.set_tolerance(tol)
-        pts = as_points(aux.sample_path(list(line)))
-        err = None
-        if pts is None:
-            err = "auxiliary map returned a malformed path"
-        else:
-            for a, b in zip(pts, pts[1:]):
-                if not same_xy(a, b) and abs(a[2] - b[2]) < 100 * max(tol, 1.0):
+        # four steep planes (rising and falling along the line, above and below zero): the property forbids dropping any of their
+        # samples, so each of them lists every position; the union is taken so that a filter that wrongly drops samples on, say,
+        # falling ground cannot thin out the reference positions as well (positions are merged in the order along the line)
+        err, merged = None, {}
+        x1, y1, x2, y2 = line
+        for sign, offset in ((1.0, 0.0), (-1.0, 0.0), (1.0, 1e7), (-1.0, -1e7)):
+            data = numpy.array([(x, y, sign * AUX_GAIN * (x + math.pi * y) + offset) for x, y in AUX_POINTS])
+            aux = SparseHeightMap(data)
+            aux.set_tolerance(tol)
+            pts = as_points(aux.sample_path(list(line)))
+            if pts is None:
+                err = "auxiliary map returned a malformed path"
+                break
+            for p in dedupe(pts):
+                t = math.hypot(p[0] - x1, p[1] - y1)
+                merged.setdefault((round(t, 9)), (p[0], p[1]))
+        pts = [merged[k] for k in sorted(merged)] if not err else None
+        if pts:
+            heights = [AUX_GAIN * (p[0] + math.pi * p[1]) for p in pts]
+            for (a, ha), (b, hb) in zip(zip(pts, heights), zip(pts[1:], heights[1:])):
+                if not same_xy(a, b) and abs(ha - hb) < 100 * max(tol, 1.0):
                     err = f"auxiliary plane is not steep enough between {a} and {b}"
-        _AUX[key] = (dedupe(pts) if pts else None, err)
+        _AUX[key] = (pts if pts else None, err)
     return _AUX[key]
 
 
